@@ -177,7 +177,7 @@ fn c05_stats_n5() {
     narrow::<5>(false)
 }
 
-// @cell props=C05 tier=thorough kind=attempt timeout=3000 mem=16 cls=N
+// @cell props=C05 tier=thorough kind=core timeout=3000 mem=16 cls=N
 // @desc 2 samples with full-width u64 durations plus one > 2^64 ps, sample size 1..=8
 #[kani::proof]
 #[kani::unwind(6)]
